@@ -7,6 +7,7 @@
   (pysmiles evaluated on every run).
 -/
 import CGV.Lemmas.Valence
+import CGV.Lemmas.Fold
 namespace CGV.C09
 open CGV Mol
 
@@ -173,5 +174,111 @@ example : missingH [4] 2 = 3 := by decide
 example : valenceOf { key := 0, element := ['C'], charge := 0 } = some [4] := by decide +kernel
 example : valenceOf { key := 0, element := ['N'], charge := 1 } = some [4] := by decide +kernel
 example : valenceOf { key := 0, element := ['S'], charge := 0 } = some [2, 4, 6] := by decide +kernel
+
+end CGV.C09
+
+namespace CGV.C09
+open CGV Mol
+
+/-! ### hydrogens: one bond, and the attributes of the atom they sit on -/
+
+theorem beq_false_of_lt (a n i : Nat) (h : a < n) : (a == n + i) = false := by
+  simp only [beq_eq_false_iff_ne, ne_eq]; omega
+
+theorem beq_add_false (n j i : Nat) (h : j ≠ i) : (n + j == n + i) = false := by
+  simp only [beq_eq_false_iff_ne, ne_eq]; omega
+
+/-- every hydrogen that `add_explicit_hydrogens` adds for an atom is bonded to that atom and to
+    nothing else (the keys are fresh, so no existing bond can involve them) -/
+theorem C09_new_hydrogen_one_bond (m : Mol) (k : Key) (c i : Nat) (hi : i < c)
+    (hwf : ∀ e ∈ m.edges, e.a < m.nextKey ∧ e.b < m.nextKey) (hk : k < m.nextKey) :
+    (hStep m (k, c)).neighbors (m.nextKey + i) = [k] := by
+  unfold hStep Mol.neighbors
+  simp only [List.filterMap_append]
+  have hold : m.edges.filterMap (fun e => if e.a == m.nextKey + i then some e.b
+      else if e.b == m.nextKey + i then some e.a else none) = [] := by
+    rw [List.filterMap_eq_nil_iff]
+    intro e he
+    obtain ⟨h1, h2⟩ := hwf e he
+    have n1 : (e.a == m.nextKey + i) = false := beq_false_of_lt _ _ _ h1
+    have n2 : (e.b == m.nextKey + i) = false := beq_false_of_lt _ _ _ h2
+    simp only [n1, n2, Bool.false_eq_true, if_false]
+  rw [hold, List.nil_append, List.filterMap_map]
+  have hne : (k == m.nextKey + i) = false := beq_false_of_lt _ _ _ hk
+  -- among the new edges (k, start + j) exactly the one with j = i matches
+  have : ∀ (n : Nat), i < n → (List.range n).filterMap ((fun e : Edge => if e.a == m.nextKey + i then some e.b
+      else if e.b == m.nextKey + i then some e.a else none) ∘ fun j => (⟨k, m.nextKey + j, 2, none⟩ : Edge)) = [k] := by
+    intro n
+    induction n with
+    | zero => intro h; omega
+    | succ n ih =>
+      intro h
+      rw [List.range_succ, List.filterMap_append]
+      by_cases hin : i < n
+      · rw [ih hin]
+        have : (m.nextKey + n == m.nextKey + i) = false := beq_add_false _ _ _ (by omega)
+        simp only [List.filterMap_cons, List.filterMap_nil, Function.comp, hne, this, Bool.false_eq_true, if_false,
+          List.append_nil]
+      · have hi' : i = n := by omega
+        subst hi'
+        have hnone : (List.range i).filterMap ((fun e : Edge => if e.a == m.nextKey + i then some e.b
+            else if e.b == m.nextKey + i then some e.a else none) ∘ fun j => (⟨k, m.nextKey + j, 2, none⟩ : Edge)) = [] := by
+          rw [List.filterMap_eq_nil_iff]
+          intro j hj
+          have hj' : j < i := List.mem_range.mp hj
+          have : (m.nextKey + j == m.nextKey + i) = false := beq_add_false m.nextKey j i (Nat.ne_of_lt hj')
+          simp only [Function.comp, hne, this, Bool.false_eq_true, if_false]
+        rw [hnone]
+        simp only [List.filterMap_cons, List.filterMap_nil, Function.comp, hne, beq_self_eq_true, if_true,
+          Bool.false_eq_true, if_false, List.nil_append]
+  exact this c hi
+
+/-- the attribute inheritance: bonds and non-hydrogen atoms are untouched; a completed hydrogen
+    takes membership, fragment name and weight of the atom it is bonded to, unless it was written
+    with its own -/
+theorem C09_inherit (m m' : Mol) (h : inheritH m = .ok m') (h0 : Atom) (hin : h0 ∈ m.atoms) :
+    m'.edges = m.edges ∧
+    ∃ h1 ∈ m'.atoms, h1.key = h0.key ∧ h1.element = h0.element ∧
+      ((h0.isH && !h0.singleH) = false → h1 = h0) ∧
+      ((h0.isH && !h0.singleH) = true → ∃ n rest p, m.neighbors h0.key = n :: rest ∧ m.atom? n = some p ∧
+        h1.fragid = (if h0.fragid == [] then p.fragid else h0.fragid) ∧
+        h1.fragname = (if h0.fragname == [] then p.fragname else h0.fragname) ∧
+        (h0.extra.any (·.1 == "weight") = false →
+          h1.extra = h0.extra ++ [("weight", (p.extra.lookup "weight").getD "None")]) ∧
+        (h0.extra.any (·.1 == "weight") = true → h1.extra = h0.extra)) := by
+  unfold inheritH at h
+  simp only [bind, Except.bind, pure, Except.pure] at h
+  split at h
+  · cases h
+  · rename_i atoms hm
+    simp only [Except.ok.injEq] at h
+    subst h
+    refine ⟨rfl, ?_⟩
+    obtain ⟨h1, hmem, hf⟩ := mapM_ok_all _ _ _ hm h0 hin
+    refine ⟨h1, hmem, ?_⟩
+    by_cases hc : (h0.isH && !h0.singleH) = true
+    · simp only [hc, if_true] at hf
+      cases hn : m.neighbors h0.key with
+      | nil => rw [hn] at hf; cases hf
+      | cons n rest =>
+        rw [hn] at hf
+        simp only at hf
+        cases hp : m.atom? n with
+        | none => rw [hp] at hf; cases hf
+        | some p =>
+          rw [hp] at hf
+          simp only [pure, Except.pure, Except.ok.injEq] at hf
+          subst hf
+          refine ⟨rfl, rfl, ?_, ?_⟩
+          · intro hx; rw [hc] at hx; cases hx
+          · intro _
+            refine ⟨n, rest, p, rfl, hp, rfl, rfl, ?_, ?_⟩
+            · intro hw; simp [hw]
+            · intro hw; simp [hw]
+    · have hc' : (h0.isH && !h0.singleH) = false := by simpa using hc
+      simp only [hc', Bool.false_eq_true, if_false, pure, Except.pure, Except.ok.injEq] at hf
+      subst hf
+      refine ⟨rfl, rfl, fun _ => rfl, ?_⟩
+      intro hx; rw [hc'] at hx; cases hx
 
 end CGV.C09
